@@ -129,6 +129,7 @@ def dev_server_environ(raw_path, method, query='', absolute_form=False, headers=
     hd.headers = http.client.HTTPMessage()
     hd.headers['Host'] = 'localhost'
     for k, v in (headers or {}).items():
+        del hd.headers[k]
         hd.headers[k] = v
     target = quote(raw_path.encode('utf-8'), safe='/+') + ('?' + query if query else '')
     hd.path = ('http://localhost' + target) if absolute_form else target
